@@ -1,8 +1,20 @@
 """Dispatch: property id -> check."""
-from . import props_seq
+from . import props_seq, props_sched, props_misc
 
 
 def run(pid, tier, seed):
-    if pid in ("C01", "C02", "C08", "C11"):
+    if pid in ("C01", "C02", "C11"):
         return props_seq.run_seq_property(pid, tier, seed)
+    if pid in ("C03", "C04", "C06", "C10"):
+        return props_sched.run_sched_property(pid, tier, seed)
+    if pid in ("C05", "C08", "C09"):
+        # sequential half (all six types, every history) + scheduled half
+        rc1 = props_seq.run_seq_property(pid, tier, seed, write=False)
+        seq = dict(props_seq.LAST)
+        rc2 = props_sched.run_sched_property(pid, tier, seed, seq_part=seq)
+        return 1 if (rc1 or rc2) else 0
+    if pid == "C07":
+        return props_misc.run_c07(tier, seed)
+    if pid == "C12":
+        return props_misc.run_c12(tier, seed)
     raise SystemExit("unknown property " + pid)
